@@ -28,30 +28,75 @@ Print Assumptions C18_payout_at_most_fee_plus_half_unit_each.
 
 (** The whole property for one transaction, for EVERY state and transaction: whatever the
     registry, contract infos, balances, fee coins, messages, AllowedDenoms list (repeats included)
-    — if the fee collector is a blocked address, getAllowedFees counts a coin once (generated
-    fact), DeveloperShares ∈ [0,1] and fee amounts are non-negative, the model's transition
-    satisfies [P_tx] (Spec.v): payouts only to the registered
-    withdrawers of top-level executes, equal split, total ≤ share × allowed fee + n, nothing in
-    other denoms, nothing when disabled / nobody registered, collector delta = fee − payouts,
-    rejected txs change nothing, and registry changes only by the admin (creator when there is no
-    admin) or as a factory contract's self-registration. *)
+    and whatever parameter value was last set (every valid corner: disabled with share 0 and no
+    denom list, enabled with share 0 or 1, …) — if the fee collector is a blocked address,
+    getAllowedFees counts a coin once, ModuleParams.Sanitize keeps the meaning of valid values
+    (three generated facts: [env_ok]), the parameters AS SET by the last accepted MsgUpdateParams /
+    genesis are valid and the stored item means the same ([store_ok], an invariant of histories)
+    and fee amounts are non-negative, the model's transition — which reads the parameters the way
+    the keeper does, through Sanitize of the stored item — satisfies [P_tx] (Spec.v) AGAINST THE
+    PARAMETERS AS SET: payouts only to the registered withdrawers of top-level executes, equal
+    split, total ≤ share × allowed fee + n, nothing in other denoms, nothing when disabled / nobody
+    registered, collector delta = fee − payouts, rejected txs change nothing, and registry changes
+    only by the admin (creator when there is no admin) or as a factory contract's
+    self-registration. *)
 Theorem C18_tx_satisfies_property :
   forall (E : env) (st : state) (t : txin) (scope : list addr),
-  env_ok E -> params_ok (s_params st) -> fee_ok (t_fee t) ->
+  env_ok E -> store_ok st -> fee_ok (t_fee t) ->
   P_tx E (s_params st) (s_wasm st) (reg_lookup (s_reg st)) t
        (x_class (snd (step_tx E st t))) (delta st (fst (step_tx E st t)))
        (reg_lookup (s_reg (fst (step_tx E st t)))) scope.
 Proof. exact tx_satisfies_property. Qed.
 Print Assumptions C18_tx_satisfies_property.
 
-(** … and for every transaction of every history of transactions, param changes, wasm admin
-    changes and block boundaries. *)
+(** … and for every transaction of every history of transactions, parameter changes by
+    MsgUpdateParams and by genesis (any value; invalid ones are refused) at any point of the
+    history, wasm admin changes and block boundaries. *)
 Theorem C18_history_satisfies_property :
   forall (E : env) (evs : list event) (st : state),
-  env_ok E -> params_ok (s_params st) -> Forall event_ok evs ->
+  env_ok E -> store_ok st -> Forall event_ok evs ->
   Forall (transition_ok E) (transitions E st evs).
 Proof. exact history_satisfies_property. Qed.
 Print Assumptions C18_history_satisfies_property.
+
+(** Along every such history the stored ModuleParams item keeps meaning what was last set. *)
+Theorem C18_stored_params_mean_what_was_set :
+  forall (E : env) (evs : list event) (st : state),
+  san_ok E -> store_ok st -> store_ok (fold_left (step E) evs st).
+Proof. exact history_keeps_store_ok. Qed.
+Print Assumptions C18_stored_params_mean_what_was_set.
+
+(** "Nothing is paid when fee sharing is disabled", against the parameters AS SET: while the last
+    accepted update / genesis says EnableFeeShare = false — whatever else it says, share 0 and an
+    empty denom list included — a transaction moves nothing but its own fee from the signer to
+    the collector, and no registry message changes the registry. *)
+Theorem C18_disabled_as_set_pays_nothing :
+  forall (E : env) (st : state) (t : txin),
+  env_ok E -> store_ok st -> fee_ok (t_fee t) -> p_enabled (s_params st) = false ->
+  (forall a d, delta st (fst (step_tx E st t)) a d =
+               if Nat.eqb (x_class (snd (step_tx E st t))) 1 then 0
+               else (if Nat.eqb a (e_collector E) then amount_of (t_fee t) d else 0)
+                    - (if Nat.eqb a (t_signer t) then amount_of (t_fee t) d else 0)) /\
+  s_reg (fst (step_tx E st t)) = s_reg st.
+Proof. exact disabled_as_set_pays_nothing. Qed.
+Print Assumptions C18_disabled_as_set_pays_nothing.
+
+(** The variant of ModuleParams.Sanitize that takes the all-zero value {disabled, share 0, no
+    denoms} for "never written" and answers DefaultParams() does not keep the meaning of valid
+    values, and the history "set everything off (by MsgUpdateParams or by genesis), execute a
+    registered contract with fee 1000" pays 500 to the withdrawer while the parameters as set say
+    disabled — the property is false for it; registrations stay open as well. *)
+Theorem C18_all_zero_params_read_as_defaults_refuted :
+  ~ san_ok env_all_zero_is_unset /\
+  (forall g, exists st t st' out,
+      transitions env_all_zero_is_unset ex_state (off_history g) = [(st, t, st', out)] /\
+      store_ok ex_state /\ fee_ok (t_fee t) /\
+      p_enabled (s_params st) = false /\ delta st st' 6%nat 2%nat = 500 /\
+      ~ transition_ok env_all_zero_is_unset (st, t, st', out)) /\
+  x_class (snd (step_tx env_all_zero_is_unset (step_env env_all_zero_is_unset ex_state (SetParams all_off))
+                        {| t_signer := 5%nat; t_fee := []; t_msgs := [MRegister 10%nat 10%nat] |})) = 0%nat.
+Proof. exact all_zero_params_read_as_defaults_refuted. Qed.
+Print Assumptions C18_all_zero_params_read_as_defaults_refuted.
 
 (** Equal split: one per-recipient amount [q d] per denom; every account other than the signer
     and the collector gains (its number of occurrences among the recipients) × q d. *)
